@@ -23,7 +23,7 @@ CHECKS = {
     "C03": (
         "recurrence oracle on recorded series + model-based histories + two metamorphic relations between whole runs (capital scaling, flows on zero-P&L dates)",
         "Index recurrence on every date of generated backtests, intra-date recurrence after every operation of generated histories with the model's own accumulators, and two metamorphic "
-        "relations between whole runs (scale invariance; flows on zero-P&L dates do not move the index).",
+        "relations between whole runs (scale invariance; flows on zero-P&L dates do not move the index); fees under side-dependent commission models recomputed from the transaction list.",
         "Flow neutrality is read as 'a flow by itself produces no return' (the stated recurrence dilutes a same-date P&L); metamorphic relations only on the scale-free grammar subset and solvent runs.",
         "5/C03",
     ),
@@ -46,7 +46,7 @@ CHECKS = {
         "twin execution of generated histories (plain vs with generated redundant updates and reads) with bit-identical snapshot comparison; noisy vs plain generated backtests",
         "Two identical trees execute the same generated history, one with extra generated update calls and property reads; snapshots must be bit-identical after every step, past rows frozen, "
         "no accessor beyond now; plus grammar backtests with and without a noise algo; plus histories with deferred operations (update=False) and generated placements of the closing "
-        "update, where the rows of earlier dates (read from the raw arrays) must never change once the clock has moved.",
+        "update, where the rows of earlier dates (read from the raw arrays) must never change once the clock has moved; rebalance with an explicit base called while a change is pending == the same call after a refresh.",
         "Noise is placed between operations issued with default update flags (never inside an update=False batch); under deferred operations only the append-only clause is judged.",
         "5/C08",
     ),
